@@ -6,6 +6,7 @@ symbols by number, every other pairing is an error ("different"). Integers are u
 here; the channel only uses small ones (Go: int64 / int32).
 -/
 import ZygoVerif.Model.Hash
+import ZygoVerif.Model.Json
 namespace ZygoVerif.Hash
 
 inductive Key where
@@ -52,6 +53,17 @@ def Key.inHash : Key → String
   | .str s => "\"" ++ s ++ "\""
   | k => k.sexp
 
-def keyShow : Show Key Int := ⟨Key.sexp, Key.inHash, fun v => toString v⟩
+/-- `jsonQuote` (Model/Json.lean, the C11 model of zygo/jsonmsgp.go) on the UTF-8 bytes of a text;
+the channel keeps to ASCII, where bytes and characters coincide. -/
+def jsonQuoteStr (s : String) : String :=
+  String.ofList ((ZygoVerif.Json.jsonQuote (s.toUTF8.toList.map (·.toNat))).map Char.ofNat)
+
+/-- `jsonKey(key)`: the text of a string or symbol key, else the printed form, JSON-quoted -/
+def Key.jsonKey : Key → String
+  | .sym n _ => jsonQuoteStr n
+  | .str s => jsonQuoteStr s
+  | k => jsonQuoteStr k.sexp
+
+def keyShow : Show Key Int := ⟨Key.sexp, Key.jsonKey, Key.inHash, fun v => toString v⟩
 
 end ZygoVerif.Hash
